@@ -29,7 +29,7 @@ EXPLANATION = (
     "binding on every path.  R02.4 (=R01.1): the enclosing-scope lookup chain skips class scopes.  R02.5 (=R15.7): target-name "
     "collectors never bind the object name of an attribute/subscript target.  R02.6: in every filter list, rejecting-only "
     "filters precede accepting ones (the first non-None verdict decides).  R02.7 (=R01.7): merged name tables give the winner the language "
-    "prescribes.  R02.8 (=R01.8): absolute module names are searched on the path before the importer's own folder.  R02.9: the definition-header keyword table covers def, async def and class.  R02.10: a package's __init__ names take precedence over its submodules.  That each candidate evaluates to "
+    "prescribes.  R02.8 (=R01.8): absolute module names are searched on the path before the importer's own folder.  R02.9: the definition-header keyword table covers def, async def and class.  R02.10: a package's __init__ names take precedence over its submodules.  R02.11 (=R14.6): the line table that maps offsets to the interpreter's line numbers breaks lines at '\\n' only.  That each candidate evaluates to "
     "the right binding is otherwise not decided."
 )
 ASSUMPTIONS = ["re alternation is ordered (leftmost position, first alternative wins)",
@@ -81,6 +81,9 @@ def check(ctx, res) -> None:
     module_search_order_rule(ctx, res, "R02.8")
     _header_keyword_rule(ctx, res)
     _package_precedence_rule(ctx, res)
+    from .c14 import line_table_rule
+
+    line_table_rule(ctx, res, "R02.11")
 
 
 def _check_main(ctx, res) -> None:
